@@ -103,6 +103,10 @@ def check_src(rep, prog):
     oki = all(any(x in handlers for x in neg_excs(e.guard)) for e in imps) and bool(imps)
     rep.check(okc and oki, "C18.R4.containment", "SRC parser import and call are each inside try/except", "SRC.parse", "try: ... except",
               "a failing SRC parser module is not contained: import covered=%s, call covered by 'except Exception'=%s" % (oki, okc))
+    hf = pelx.handler_failures(I.events)
+    rep.check(not hf, "C18.R4.containment", "the handlers that contain an SRC parser failure cannot fail themselves", "SRC.parse",
+              hf[0][0].node if hf else "except Exception", "the handler that contains a failing SRC parser can raise itself (%s): the whole PEL is "
+              "lost instead of only its SRC details" % (repr(hf[0][0].data[0])[:100] if hf else ""), node=hf[0][0].node if hf else None)
     # a parser is remembered as missing only when its import failed - never because it raised while running
     from .c19 import missing_store_ok
     for st_ in [e for e in I.events if e.kind == "dict_store" and e.data[2] == NONE and
@@ -321,5 +325,8 @@ def run(rep, prog, thorough):
     check_no_static_plugin_imports(rep, prog)
     check_P_option(rep, prog)
     # containment of a failing user-data plug-in (rules shared with C04)
-    from .c04 import check_parse
+    from .c04 import check_parse, check_sections
     check_parse(rep, prog)
+    # which module a section goes to is decided by the section's OWN creator / component / sub-type / version (an Extended
+    # User Data section carries its creator in its first byte) and it receives exactly the section's payload
+    check_sections(rep, prog)
